@@ -7,6 +7,8 @@ From V Require Model.Date Model.Time.
 From V Require Model.Parsed.
 From V Require Import Base.Int Base.IO Base.Utf8 Model.Scan Model.DateTime Model.C11 Spec.Rfc2822 Judge.C11
   Spec.Gregorian Proofs.C08Sweeps Proofs.C04 Proofs.Utf8 Proofs.Scan Proofs.C11 Proofs.C11Scan Proofs.C11Resolve Proofs.C11Reader Proofs.C11Write Proofs.C11Roundtrip Proofs.C11RoundtripThm.
+From V Require Proofs.C14 Proofs.C13Safe.
+From V Require Import Proofs.C11Total.
 Import ListNotations.
 Open Scope Z_scope.
 
@@ -152,11 +154,8 @@ Print Assumptions C11_spec_reads_standard_form.
    fields DateTime::parse_from_rfc2822 returns a value (no trap, fuel of the comment loop
    sufficient); (2) the zone scanner never traps on ANY well-formed string (the comment scanner:
    C11_comment_total; number / char: C10_number_total, Proofs/Scan.v char_ok).
-   GAP to the full statement "never Panic on any valid UTF-8 string": the composition of the scanner
-   totalities over arbitrary strings (remainder-validity bookkeeping through all error branches of
-   parse_rfc2822) and the totality of Parsed::to_datetime on the field sets the reader can produce
-   (Proofs/C14Date.v has it modulo the ISO-week facts).  The correspondence run covers it by test:
-   no PANIC among the 2.4*10^5 r2.parse cases of the quick tier, 93 000 of them arbitrary / mutated text. *)
+   The full statement "never Panic on any valid UTF-8 string" is C11_parse_never_panics at the end of
+   this file (Proofs/C11Total.v); this older partial form is kept under its name. *)
 Theorem C11_no_panic_on_grammar_partial : forall s f, utf8_valid s = true -> blen s <= u64_max ->
   recognise s = Some f -> valid f = true -> representable f = true ->
   exists r, parse_from_rfc2822 s = Val r.
@@ -165,3 +164,41 @@ Print Assumptions C11_no_panic_on_grammar_partial.
 Theorem C11_zone_scanner_total : forall s, utf8_valid s = true -> exists r, timezone_offset_2822 s = Val r.
 Proof. exact timezone_offset_2822_total. Qed.
 Print Assumptions C11_zone_scanner_total.
+
+(* ---- NEVER PANIC, full statement (Proofs/C11Total.v).  [Proofs.C13Safe.safe r good]: the ParseResult
+   computation [r] returned (no trap, no fuel exhaustion) and a successful value satisfies [good];
+   [wf s] is [utf8_valid s = true]; [blen s <= u64_max]: a length a Rust string can have. *)
+
+(* slice safety of the hand-written scanner sequence parse_rfc2822, from ANY typed field state: every
+   &s[i..] is on a char boundary, every index in bounds, the year-length and comment-depth usize
+   arithmetic and the month / year additions in range, the trailing-comment loop terminates; the
+   remainder handed on is well-formed again and not longer than the input, the field state typed *)
+Theorem C11_parse_rfc2822_slice_safe : forall p s, Proofs.C14.typed p -> Proofs.C13Safe.wf s -> blen s <= u64_max ->
+  Proofs.C13Safe.safe (parse_rfc2822 p s)
+    (fun x => Proofs.C14.typed (fst x) /\ Proofs.C13Safe.wf (snd x) /\ blen (snd x) <= blen s).
+Proof. exact parse_rfc2822_safe. Qed.
+Print Assumptions C11_parse_rfc2822_slice_safe.
+
+(* the zone scanner and the comment scanner with their remainders *)
+Theorem C11_zone_scanner_safe : forall s, Proofs.C13Safe.wf s ->
+  Proofs.C13Safe.safe (timezone_offset_2822 s) (fun x => Proofs.C13Safe.wf (fst x) /\ blen (fst x) <= blen s).
+Proof. exact timezone_offset_2822_safe. Qed.
+Print Assumptions C11_zone_scanner_safe.
+Theorem C11_comment_scanner_safe : forall s, Proofs.C13Safe.wf s -> blen s <= u64_max ->
+  Proofs.C13Safe.safe (comment_2822 s) (fun x => Proofs.C13Safe.wf (fst x) /\ blen (fst x) < blen s).
+Proof. exact comment_2822_safe. Qed.
+Print Assumptions C11_comment_scanner_safe.
+
+(* for EVERY well-formed UTF-8 string DateTime::parse_from_rfc2822 returns a value (Ok or a
+   ParseError): never Panic, never OutOfFuel -- scanning (above), the TOO_LONG check, and
+   Parsed::to_datetime on the field state the reader built (C14_to_datetime_never_panics) *)
+Theorem C11_parse_never_panics : forall s, utf8_valid s = true -> blen s <= u64_max ->
+  exists r, parse_from_rfc2822 s = Val r.
+Proof. exact parse_from_rfc2822_never_panics. Qed.
+Print Assumptions C11_parse_never_panics.
+Example C11_parse_never_panics_inhabited :
+  utf8_valid (B"Tue, 1 Jul 2003 10:52:37 +0200 (été)") = true /\
+  (exists z, parse_from_rfc2822 (B"Tue, 1 Jul 2003 10:52:37 +0200 (été)") = Val (POk z)) /\
+  parse_from_rfc2822 (B"Tue, 1 Jul 2003 10:52:37 −0200") = Val (PErr Invalid).
+Proof. split; [vm_compute; reflexivity|]. split; [eexists; vm_compute; reflexivity|vm_compute; reflexivity]. Qed.
+Print Assumptions C11_parse_never_panics_inhabited.
